@@ -510,3 +510,88 @@ Proof.
   split; [cbn [ts_ex_writes repeat app]; repeat constructor; cbn [fst snd]; lia|].
   vm_compute; reflexivity.
 Qed.
+
+(* ------------------------------------------------------------------ *)
+(* the recommendation gate                                            *)
+(* ------------------------------------------------------------------ *)
+Lemma gate_consts : MIN_RECOMMENDATION = 3 /\ RECOMMENDATION_INTERVAL = 60.
+Proof. split; vm_compute; reflexivity. Qed.
+
+(* the conversion to u32 can never fail: the gate lets only fa >= MIN_RECOMMENDATION > 0 through *)
+Lemma gate_step_total : forall next cf fa, exists n' o, gate_step next cf fa = Ok (n', o).
+Proof.
+  intros next cf fa. unfold gate_step. destruct gate_consts as [Hm _].
+  destruct ((next <? cf) && (MIN_RECOMMENDATION <=? fa)) eqn:Hc.
+  - destruct (fa <? 0) eqn:Hn; [exfalso; lia|]. eauto.
+  - eauto.
+Qed.
+
+Lemma gate_step_spec : forall next cf fa n' o, gate_step next cf fa = Ok (n', o) ->
+  (o = Some fa /\ next < cf /\ MIN_RECOMMENDATION <= fa /\ n' = cf + RECOMMENDATION_INTERVAL) \/
+  (o = None /\ n' = next /\ ~ (next < cf /\ MIN_RECOMMENDATION <= fa)).
+Proof.
+  intros next cf fa n' o. unfold gate_step.
+  destruct ((next <? cf) && (MIN_RECOMMENDATION <=? fa)) eqn:Hc.
+  - destruct (fa <? 0) eqn:Hn; [discriminate|]. intros H; inversion H; subst. left. repeat split; lia.
+  - intros H; inversion H; subst. right. repeat split; lia.
+Qed.
+
+Lemma gate_run_length : forall calls next, length (gate_run next calls) = length calls.
+Proof.
+  induction calls as [|[cf fa] r IH]; intros next; cbn [gate_run length]; [reflexivity|].
+  destruct (gate_step_total next cf fa) as (n' & o & E). rewrite E. cbn [length]. now rewrite IH.
+Qed.
+
+(* the gate state only grows, and every event of a run is raised at a frame above the state it started from *)
+Lemma gate_run_above : forall calls next cf fa k,
+  In (cf, fa, Some k) (gate_run next calls) -> next < cf /\ k = fa /\ MIN_RECOMMENDATION <= fa.
+Proof.
+  induction calls as [|[cf0 fa0] r IH]; intros next cf fa k HIn; cbn [gate_run] in HIn; [contradiction|].
+  destruct (gate_step next cf0 fa0) as [[n' o]| |] eqn:E; [|contradiction|contradiction].
+  assert (Hge : next <= n').
+  { destruct (gate_step_spec _ _ _ _ _ E) as [(_ & H1 & _ & H2)|(_ & H2 & _)]; destruct gate_consts; lia. }
+  destruct HIn as [HIn|HIn].
+  - inversion HIn; subst.
+    destruct (gate_step_spec _ _ _ _ _ E) as [(H0 & H1 & H2 & _)|(H0 & _)]; [|discriminate].
+    inversion H0; subst. repeat split; assumption.
+  - destruct (IH _ _ _ _ HIn) as (H1 & H2 & H3). repeat split; try assumption. lia.
+Qed.
+
+Lemma gate_run_split : forall calls next pre cf fa o post,
+  gate_run next calls = pre ++ (cf, fa, o) :: post ->
+  exists n' rest, post = gate_run n' rest /\ (forall k, o = Some k -> n' = cf + RECOMMENDATION_INTERVAL).
+Proof.
+  induction calls as [|[cf0 fa0] r IH]; intros next pre cf fa o post H; cbn [gate_run] in H.
+  - destruct pre; discriminate.
+  - destruct (gate_step next cf0 fa0) as [[n' o']| |] eqn:E; [|destruct pre; discriminate|destruct pre; discriminate].
+    destruct pre as [|x pre]; cbn [app] in H.
+    + inversion H; subst. exists n', r. split; [reflexivity|]. intros k Hk.
+      destruct (gate_step_spec _ _ _ _ _ E) as [(_ & _ & _ & H2)|(H0 & _)]; [assumption|congruence].
+    + inversion H; subst. eapply IH; eassumption.
+Qed.
+
+Lemma gate_spacing : forall calls next pre cf1 fa1 k1 post cf2 fa2 k2,
+  gate_run next calls = pre ++ (cf1, fa1, Some k1) :: post ->
+  In (cf2, fa2, Some k2) post ->
+  cf1 + RECOMMENDATION_INTERVAL < cf2.
+Proof.
+  intros calls next pre cf1 fa1 k1 post cf2 fa2 k2 H HIn.
+  destruct (gate_run_split _ _ _ _ _ _ _ H) as (n' & rest & Hp & Hn). subst post.
+  rewrite <- (Hn k1 eq_refl). exact (proj1 (gate_run_above _ _ _ _ _ HIn)).
+Qed.
+
+(* no recommendation is withheld: a call above the gate state with fa >= MIN_RECOMMENDATION raises one *)
+Lemma gate_step_emits : forall next cf fa, next < cf -> MIN_RECOMMENDATION <= fa ->
+  gate_step next cf fa = Ok (cf + RECOMMENDATION_INTERVAL, Some fa).
+Proof.
+  intros next cf fa H1 H2. unfold gate_step. destruct gate_consts as [Hm _].
+  replace ((next <? cf) && (MIN_RECOMMENDATION <=? fa)) with true by lia.
+  destruct (fa <? 0) eqn:Hn; [exfalso; lia|reflexivity].
+Qed.
+
+Definition gate_ex_calls : list (Z * Z) :=
+  [(1, 0); (2, 3); (3, 5); (40, 7); (62, 2); (63, 4); (64, 4); (123, 2); (124, 9)].
+Lemma gate_ex_ok : gate_run gate_init gate_ex_calls =
+  [(1, 0, None); (2, 3, Some 3); (3, 5, None); (40, 7, None); (62, 2, None); (63, 4, Some 4);
+   (64, 4, None); (123, 2, None); (124, 9, Some 9)].
+Proof. vm_compute. reflexivity. Qed.
